@@ -37,6 +37,13 @@ func gen(g *vh.Gen) {
 		stream := smtpd.GenDialogue(g, c, pool, os)
 		g.Emit("smtp", append(c.Fields(), vh.H(stream))...)
 	}
+	// one destination mailbox named through a stored and a discarded domain in one transaction (see smtpd.GenCollision)
+	gs := g.Side("c01-collision")
+	for i := 0; i < g.N(40, 2000); i++ {
+		c, pool := smtpd.GenCfg(gs, smtpd.Opts{})
+		stream := smtpd.GenCollision(gs, &c, pool)
+		gs.Emit("smtp", append(c.Fields(), vh.H(stream))...)
+	}
 }
 
 // genRemoveRace: two sessions to the same recipients; while the second delivers, another client removes what the
